@@ -23,9 +23,10 @@ import threading
 import uuid
 import xml.etree.ElementTree as ET
 from types import SimpleNamespace
+from urllib.parse import parse_qsl, urlsplit
 
 from harness import core
-from harness.core import cbool, clist, cstr, popt, pstr
+from harness.core import cbool, clist, copt, cstr, ctuple, popt, pstr
 from harness.loopback import Recorder
 
 LEVEL = "proof"
@@ -569,18 +570,24 @@ def compare_har(har, inters, preserve):
         body = it["req_body"]
         pd = e["request"].get("postData")
         if body is None:
-            want("request.postData", pd, None)
+            want("request.postData (the request had no body)", pd, None)
         elif preserve:
             want("request.postData", None if pd is None else b64(pd["text"]), body)
         else:
             want("request.postData", None if pd is None else pd["text"], body.decode("utf-8", "replace"))
+        if body is not None and pd is not None:
+            want("request.postData.mimeType", pd.get("mimeType"), (it["req_headers"].get("Content-Type") or [""])[0])
+        want("request.bodySize", e["request"].get("bodySize"), len(body or b""))
+        want("request.queryString", [(q["name"], q["value"]) for q in e["request"]["queryString"]], parse_qsl(urlsplit(it["uri"]).query, keep_blank_values=True))
         r = it["response"]
         if r is None:
-            want("response.status", e["response"]["status"], 0)
+            want("response (network error: no response)", canon_har_response(e["response"]), None)
         else:
             want("response.status", e["response"]["status"], r["status"])
             want("response.statusText", e["response"]["statusText"], r["message"])
             want("response.headers", [(h["name"], h["value"]) for h in e["response"]["headers"]], [(k, v[0]) for k, v in r["headers"].items()])
+            want("response.httpVersion", e["response"]["httpVersion"], "HTTP/" + r["http_version"])
+            want("response.bodySize", e["response"].get("bodySize"), len(r["content"]))
             c = e["response"]["content"]
             if preserve:
                 want("response.content", b64(c.get("text") or ""), r["content"])
@@ -589,6 +596,258 @@ def compare_har(har, inters, preserve):
             else:
                 want("response.content", c.get("text"), r["content"].decode("utf-8", "replace"))
     return diffs
+
+
+# ----------------------------------------------------------------------------------------
+# stage: sequences of exchanges - entry i is a function of exchange i (Model_C16 Part 4)
+# ----------------------------------------------------------------------------------------
+def c_hdict(d):
+    return clist([ctuple(cstr(k), clist([cstr(v) for v in vs], "str")) for k, vs in d.items()], "(str * list str)")
+
+
+def c_xchg(idx, it):
+    req = "{| q_method := %s; q_uri := %s; q_headers := %s; q_body := %s |}" % (
+        cstr(it["method"]), cstr(it["uri"]), c_hdict(it["req_headers"]), copt(None if it["req_body"] is None else cstr(it["req_body"]), "str"))
+    r = it["response"]
+    resp = None
+    if r is not None:
+        resp = "{| p_status := %d; p_message := %s; p_headers := %s; p_content := %s; p_encoding := %s; p_version := %s |}" % (
+            r["status"], cstr(r["message"]), c_hdict(r["headers"]), cstr(r["content"]), copt(None if r["encoding"] is None else cstr(r["encoding"]), "str"), cstr(r["http_version"]))
+    checks = None
+    if it["checks"] is not None and r is not None:
+        checks = clist([ctuple(cstr(n), cbool(title is not None)) for n, title in it["checks"]], "(str * bool)")
+    return "{| x_id := %d; x_req := %s; x_resp := %s; x_checks := %s |}" % (idx, req, copt(resp, "xresp"), copt(checks, "(list (str * bool))"))
+
+
+def payload_text(p):
+    """Model payload -> the text the writer puts into the file."""
+    if p[0] == "B64":
+        return base64.b64encode(bytes(p[1])).decode()
+    if p[0] == "Utf8Replace":
+        return bytes(p[1]).decode("utf-8", "replace")
+    if p[0] == "CodecReplace":
+        return bytes(p[2]).decode(pstr(p[1]), "replace")
+    raise ValueError(p)
+
+
+def pairs(v):
+    return [(pstr(k), pstr(x)) for k, x in v]
+
+
+def canon_model_har(e):
+    post = popt(e["he_post"])
+    resp = popt(e["he_resp"])
+    out = {"method": pstr(e["he_method"]), "url": pstr(e["he_url"]), "httpVersion": pstr(e["he_version"]), "headers": pairs(e["he_headers"]),
+           "post": None if post is None else (pstr(post[0]), payload_text(post[1])), "bodySize": e["he_body_size"], "response": None}
+    if resp is not None:
+        content = popt(resp["hr_content"])
+        out["response"] = {"status": resp["hr_status"], "statusText": pstr(resp["hr_text"]), "httpVersion": pstr(resp["hr_version"]), "headers": pairs(resp["hr_headers"]),
+                           "mimeType": pstr(resp["hr_mime"]), "text": None if content is None else payload_text(content), "encoding": "base64" if resp["hr_base64"] else None,
+                           "size": resp["hr_size"], "redirectURL": pstr(resp["hr_redirect"])}
+    return out
+
+
+def canon_har_response(r):
+    c = r.get("content") or {}
+    if r["status"] == 0 and r["statusText"] == "" and not r["headers"] and r["httpVersion"] == "" and not c.get("text") and not r.get("cookies"):
+        return None
+    return {"status": r["status"], "statusText": r["statusText"], "httpVersion": r["httpVersion"], "headers": [(h["name"], h["value"]) for h in r["headers"]],
+            "mimeType": c.get("mimeType") or "", "text": c.get("text"), "encoding": c.get("encoding"), "size": c.get("size"), "redirectURL": r.get("redirectURL") or ""}
+
+
+def canon_file_har(e):
+    rq = e["request"]
+    pd = rq.get("postData")
+    return {"method": rq["method"], "url": rq["url"], "httpVersion": rq["httpVersion"], "headers": [(h["name"], h["value"]) for h in rq["headers"]],
+            "post": None if pd is None else (pd.get("mimeType"), pd.get("text")), "bodySize": rq.get("bodySize"), "response": canon_har_response(e["response"])}
+
+
+def har_rest(e):
+    """Everything of a HAR entry that is not the wall clock (for the written-alone vs written-in-sequence comparison)."""
+    return {k: v for k, v in e.items() if k != "startedDateTime"}
+
+
+VSTATUS = {"VSuccess": "SUCCESS", "VFailure": "FAILURE", "VSkip": "SKIP", "VError": "ERROR"}
+
+
+def canon_model_vcr(e):
+    def body(b):
+        b = popt(b)
+        return None if b is None else (pstr(b[0]), payload_text(b[1]))
+
+    resp = popt(e["ve_resp"])
+    out = {"id": f"c{e['ve_id']}", "status": VSTATUS[e["ve_status"]], "checks": [(pstr(n), f) for n, f in e["ve_checks"]], "uri": pstr(e["ve_uri"]), "method": pstr(e["ve_method"]),
+           "headers": {pstr(k): [pstr(v) for v in vs] for k, vs in e["ve_headers"]}, "body": body(e["ve_body"]), "response": None}
+    if resp is not None:
+        out["response"] = {"code": str(resp["vr_code"]), "message": pstr(resp["vr_message"]), "headers": {pstr(k): [pstr(v) for v in vs] for k, vs in resp["vr_headers"]},
+                           "body": body(resp["vr_body"]), "http_version": pstr(resp["vr_version"])}
+    return out
+
+
+def canon_file_vcr(e):
+    def body(b):
+        if b is None:
+            return None
+        return (b.get("encoding"), b["base64_string"] if "base64_string" in b else b.get("string"))
+
+    r = e["response"]
+    out = {"id": e["id"], "status": e["status"], "checks": [(c["name"], c["status"] == "FAILURE") for c in e["checks"]], "uri": e["request"]["uri"], "method": e["request"]["method"],
+           "headers": e["request"]["headers"] or {}, "body": body(e["request"].get("body")), "response": None}
+    if r is not None:
+        out["response"] = {"code": r["status"]["code"], "message": r["status"]["message"], "headers": r["headers"] or {}, "body": body(r.get("body")), "http_version": r["http_version"]}
+    return out
+
+
+def vcr_rest(e):
+    return {k: v for k, v in e.items() if k != "recorded_at"}
+
+
+def clean_interaction(rng):
+    """An exchange outside every listed region (the sequences are about state carried between entries, not about quoting)."""
+    while True:
+        it = rand_interaction(rng)
+        names = list(it["req_headers"]) + (list(it["response"]["headers"]) if it["response"] else [])
+        if "'" in it["uri"] or "@" in it["uri"] or it["meta"] == "none" or any(ch in n for n in names for ch in '"\\'):
+            continue
+        if it["response"] is not None and (not codec_known(it["response"]["encoding"]) or "'" in (it["response"]["encoding"] or "")):
+            continue
+        if rng.random() < 0.5:
+            it["uri"] += rng.choice(["?a=1&b=&a=2", "?q=x%20y", "?token", ""])
+        return it
+
+
+def shaped_sequence(rng):
+    """2-6 exchanges; the hand-made shapes put a field that is present next to one where it is absent, in both orders."""
+    k = rng.random()
+    seq = [clean_interaction(rng) for _ in range(rng.choice([2, 3, 4, 6]))]
+    a, b = seq[0], seq[1]
+    if k < 0.2:       # body then no body (and content type then none)
+        a["req_body"], b["req_body"] = rng.choice(BODIES[1:]), None
+        a["req_headers"]["Content-Type"] = ["application/json"]
+        b["req_headers"].pop("Content-Type", None)
+        a["method"], b["method"] = "POST", "GET"
+    elif k < 0.35:    # no body then body
+        a["req_body"], b["req_body"] = None, rng.choice(BODIES)
+    elif k < 0.5:     # response then network error, and the reverse
+        if a["response"] is None:
+            a["response"] = clean_with_response(rng)["response"]
+        b["response"] = None
+        if rng.random() < 0.5:
+            seq[0], seq[1] = b, a
+    elif k < 0.6:     # failed checks then no checks / not recorded checks
+        a["checks"] = [("not_a_server_error", "Server error")]
+        b["checks"] = rng.choice([None, []])
+        if a["response"] is None:
+            a["response"] = clean_with_response(rng)["response"]
+    elif k < 0.7:     # cookies / redirects / query then none
+        a["req_headers"]["Cookie"] = ["sid=1; theme=dark"]
+        a["uri"] = a["uri"].split("?")[0] + "?first=1"
+        b["uri"] = b["uri"].split("?")[0]
+        b["req_headers"].pop("Cookie", None)
+        if a["response"] is not None:
+            a["response"]["headers"].update({"set-cookie": ["sid=2; Path=/"], "location": ["/next"]})
+        if b["response"] is not None:
+            b["response"]["headers"].pop("set-cookie", None)
+            b["response"]["headers"].pop("location", None)
+    elif k < 0.8:     # non-empty payload then empty payload
+        if a["response"] is None:
+            a["response"] = clean_with_response(rng)["response"]
+        if b["response"] is None:
+            b["response"] = clean_with_response(rng)["response"]
+        a["response"]["content"], b["response"]["content"] = rng.choice(BODIES[1:]), b""
+    for i, it in enumerate(seq):
+        it["id"] = f"c{i}"
+    # cut into 1-3 Process messages
+    cuts = sorted(rng.sample(range(1, len(seq)), rng.choice([0, 1, 2]) if len(seq) > 2 else rng.choice([0, 1])))
+    groups, prev = [], 0
+    for c in cuts + [len(seq)]:
+        groups.append(seq[prev:c])
+        prev = c
+    return seq, groups
+
+
+def clean_with_response(rng):
+    while True:
+        it = clean_interaction(rng)
+        if it["response"] is not None:
+            return it
+
+
+def write_both(groups, preserve):
+    recs = [make_recorder(g)[0] for g in groups]
+    vtext, vexc = run_writer("vcr", recs, False, preserve)
+    htext, hexc = run_writer("har", recs, False, preserve)
+    if vexc is not None or hexc is not None:
+        return None, None, f"writer raised: vcr={vexc!r} har={hexc!r}"
+    y = yaml_load(vtext)
+    if y[0] != "ok":
+        return None, None, f"cassette is not YAML ({y[1]})"
+    try:
+        har = json.loads(htext)
+    except ValueError as exc:
+        return None, None, f"HAR is not JSON ({exc})"
+    return y[1].get("http_interactions") or [], har["log"]["entries"], None
+
+
+def stage_sequences(chk, n):
+    rng = chk.rng
+    corpus = [unjsonable(json.loads(p.read_text())) for p in sorted((core.VERIF / "corpus" / "C16").glob("sequence_*.json"))]
+    cases = [([x for g in c["groups"] for x in g], c["groups"], c["preserve"]) for c in corpus]
+    for _ in range(n):
+        seq, groups = shaped_sequence(rng)
+        cases.append((seq, groups, rng.random() < 0.5))
+    exprs = []
+    for seq, _g, preserve in cases:
+        xs = clist([c_xchg(i, it) for i, it in enumerate(seq)], "xchg")
+        exprs.append(f"(har_loop {cbool(preserve)} hvars0 {xs}, vcr_loop {cbool(preserve)} vvars0 {xs})")
+    model = core.coq_eval(IMPORTS, exprs, shard=40)
+    stats = {"sequences": len(cases), "corpus": len(corpus), "entries": 0, "entries_equal_to_model_and_traffic": 0}
+    for (seq, groups, preserve), (m_har, m_vcr) in zip(cases, model):
+        for i, it in enumerate(seq):
+            it["id"] = f"c{i}"
+        case = {"groups": [[jsonable(it) for it in g] for g in groups], "preserve": preserve}
+        shape = "".join(("B" if it["req_body"] is not None else "b") + ("R" if it["response"] is not None else "r") for it in seq)
+        chk.seen(case, len({s for s in shape}) > 2)
+        chk.count("sequence:bodies=" + "".join("1" if it["req_body"] is not None else "0" for it in seq)[:3])
+        ventries, hentries, err = write_both(groups, preserve)
+        if err is not None:
+            chk.fail(f"writers on a clean sequence: {err}", case, None, region=None)
+            continue
+        if len(ventries) != len(seq) or len(hentries) != len(seq):
+            chk.fail(f"{len(seq)} exchanges delivered, {len(ventries)} VCR / {len(hentries)} HAR entries written", case, None, region=None)
+            continue
+        stats["entries"] += len(seq)
+        for i, it in enumerate(seq):
+            ok = True
+            # (a) correspondence: the writer loops against Model_C16.har_loop / vcr_loop (= map entry, C16_entries_are_pointwise)
+            fh, mh = canon_file_har(hentries[i]), canon_model_har(m_har[i])
+            if fh != mh:
+                ok = False
+                chk.disagree(f"har_writer entry {i} of a sequence vs Model_C16.har_loop", case, fh, mh)
+            fv, mv = canon_file_vcr(ventries[i]), canon_model_vcr(m_vcr[i])
+            if fv != mv:
+                ok = False
+                chk.disagree(f"vcr_writer entry {i} of a sequence vs Model_C16.vcr_loop", case, fv, mv)
+            # (b) oracle, independent of the model: every field against the exchange that was delivered
+            hd = compare_har({"log": {"entries": [hentries[i]]}}, [it], preserve)
+            if hd:
+                ok = False
+                chk.fail(f"HAR entry {i} ({it['method']} {it['uri']}) is not the exchange that was delivered: {hd[0]['field']}", case, hd, region=None)
+            vd = compare_vcr_entry(ventries[i], it, preserve)
+            if ventries[i].get("id") != it["id"]:
+                vd.append({"field": "id", "file": ventries[i].get("id"), "traffic": it["id"]})
+            if vd:
+                ok = False
+                chk.fail(f"VCR entry {i} ({it['method']} {it['uri']}) is not the exchange that was delivered: {vd[0]['field']}", case, vd, region=None)
+            # (c) oracle: the entry written in the sequence equals the entry written alone (all fields, also cookies, timings, sizes)
+            alone_v, alone_h, err = write_both([[it]], preserve)
+            if err is None and (har_rest(alone_h[0]) != har_rest(hentries[i]) or vcr_rest(alone_v[0]) != vcr_rest(ventries[i])):
+                ok = False
+                diff = [k for k in hentries[i] if k != "startedDateTime" and alone_h[0].get(k) != hentries[i].get(k)] + [k for k in ventries[i] if k != "recorded_at" and alone_v[0].get(k) != ventries[i].get(k)]
+                chk.fail(f"entry {i} depends on the exchanges written before it (differs from the same exchange written alone in: {diff})", case,
+                         {"alone": {k: alone_h[0].get(k) for k in diff if k in alone_h[0]}, "in_sequence": {k: hentries[i].get(k) for k in diff if k in hentries[i]}}, region=None)
+            stats["entries_equal_to_model_and_traffic"] += ok
+    chk.stages["sequences_entries_pointwise"] = stats
 
 
 # ----------------------------------------------------------------------------------------
@@ -1037,6 +1296,9 @@ def check_cli_artifacts(chk, name, out, preserve, region_hint=None):
     try:
         har = json.loads(out["har.json"] or "")
         entries = har["log"]["entries"]
+        by_case_har = {}
+        for r in out["received"]:
+            by_case_har[{k.lower(): v for k, v in r["headers"]}.get("x-schemathesis-testcaseid")] = r
         if len(entries) != len(ids):
             bad(f"HAR file has {len(entries)} entries for {len(ids)} delivered exchanges")
         else:
@@ -1044,6 +1306,30 @@ def check_cli_artifacts(chk, name, out, preserve, region_hint=None):
                 req, resp = inter.request, inter.response
                 if e["request"]["url"] != req.uri or e["request"]["method"] != req.method.upper():
                     bad(f"HAR entry {cid}: request line differs", [e["request"]["url"], req.uri])
+                    break
+                if [(h["name"], h["value"]) for h in e["request"]["headers"]] != [(k, v[0]) for k, v in req.headers.items()]:
+                    bad(f"HAR entry {cid}: request headers differ", [e["request"]["headers"], req.headers])
+                    break
+                if [(q["name"], q["value"]) for q in e["request"]["queryString"]] != parse_qsl(urlsplit(req.uri).query, keep_blank_values=True):
+                    bad(f"HAR entry {cid}: queryString differs from the URL", [e["request"]["queryString"], req.uri])
+                    break
+                pd = e["request"].get("postData")
+                wire = by_case_har.get(cid)
+                if req.body is None or (wire is not None and not wire["body"] and "content-length" not in {k.lower() for k, _ in wire["headers"]}):
+                    if pd is not None and req.body is None:
+                        bad(f"HAR entry {cid} ({req.method} {req.uri}): postData present although the request had no body", pd)
+                        break
+                else:
+                    sent = req.body
+                    got = None if pd is None else (b64(pd.get("text")) if preserve else pd.get("text"))
+                    if got != (sent if preserve else sent.decode("utf-8", "replace")) or (preserve and wire is not None and got != wire["body"]):
+                        bad(f"HAR entry {cid} ({req.method} {req.uri}): postData differs from the body that was sent", [pd, sent[:80]])
+                        break
+                if resp is not None and [(h["name"], h["value"]) for h in e["response"]["headers"]] != [(k, v[0]) for k, v in resp.headers.items()]:
+                    bad(f"HAR entry {cid}: response headers differ", [e["response"]["headers"], resp.headers])
+                    break
+                if resp is None and canon_har_response(e["response"]) is not None:
+                    bad(f"HAR entry {cid}: a response is reported for a network error", e["response"])
                     break
                 if resp is not None:
                     c = e["response"]["content"]
@@ -1071,6 +1357,7 @@ PATHS_PLAIN = {
                                                     "text/plain": {"schema": {"type": "string"}}}},
                         "responses": {"201": {"description": "ok"}}}},
 }
+PATHS_PLAIN["/zz-after-the-post"] = {"get": {"responses": {"200": {"description": "ok"}}}, "delete": {"responses": {"204": {"description": "ok"}}}}
 PATHS_ODATA = {"/users('{id}')": {"get": {"parameters": [{"name": "id", "in": "path", "required": True, "schema": {"type": "integer"}}], "responses": {"200": {"description": "ok"}}}}}
 PATHS_LINKS = {"/u": {"get": {"operationId": "getU", "responses": {"200": {"description": "ok", "links": {"self": {"operationId": "getU"}}}}},
                       "post": {"operationId": "postU", "responses": {"201": {"description": "ok", "links": {"get": {"operationId": "getU"}}}}}}}
@@ -1183,6 +1470,7 @@ def run(chk: core.Check):
     stage_escaper(chk, 1200 if quick else 12000)
     stage_decoders(chk, 1200 if quick else 12000)
     stage_writers(chk, 250 if quick else 3000)
+    stage_sequences(chk, (150 if quick else 1500) * (5 if chk.broken else 1))
     stage_junit(chk, 300 if quick else 4000)
     stage_cassette_thread(chk, 40 if quick else 400)
     stage_cli(chk, quick)
